@@ -73,6 +73,7 @@ func (sc *scenario) fairEnv() {
 type roundInfo struct {
 	Outcome       string   `json:"outcome"`
 	DepWrites     int      `json:"depWrites"`     // accepted writes to children / ControllerRevisions
+	ChildWrites   int      `json:"childWrites"`   // accepted writes to children only
 	ContentWrites []string `json:"contentWrites"` // children created/deleted/changed in content (resource/name:verb)
 	StoreDigest   string   `json:"storeDigest"`
 	Updated       string   `json:"updated"` // status.conditions[Updated]: status/reason
@@ -98,6 +99,7 @@ func (sc *scenario) info(line vs.M) roundInfo {
 		case "create", "delete", "apply", "patchRemove", "update":
 			ri.DepWrites++
 			if e.Resource != "controllerrevisions" {
+				ri.ChildWrites++
 				content := e.Verb != "update"
 				if e.Verb == "update" && e.Pre != nil {
 					a, b := vs.DeepCopy(e.Pre).(map[string]interface{}), vs.DeepCopy(e.Body).(map[string]interface{})
@@ -147,6 +149,12 @@ func nsOfKey(key string) string {
 
 // ownedAndDesired: names of children the parent controls (not pending deletion) and names the last hook answer desired.
 func (sc *scenario) ownedAndDesired(lastLine vs.M) (owned, desired []string) {
+	owned, desired, _, _, _ = sc.ownedAndDesiredObjs(lastLine)
+	return
+}
+
+// ownedAndDesiredObjs also returns the objects themselves and the name of the last sync/finalize hook called ("" = none).
+func (sc *scenario) ownedAndDesiredObjs(lastLine vs.M) (owned, desired []string, ownedObjs, desiredObjs []interface{}, lastHook string) {
 	w := sc.w
 	p := w.sim.GetObj(parentGroup, sc.Cfg.parentResource(), nsOfKey(sc.key), "p1")
 	puid := objStr(p, "metadata", "uid")
@@ -156,6 +164,7 @@ func (sc *scenario) ownedAndDesired(lastLine vs.M) (owned, desired []string) {
 			for _, r := range refs {
 				if m, ok := r.(map[string]interface{}); ok && m["uid"] == puid && m["controller"] == true {
 					owned = append(owned, c.Kind+"/"+objStr(o, "metadata", "name"))
+					ownedObjs = append(ownedObjs, o)
 				}
 			}
 		}
@@ -163,12 +172,15 @@ func (sc *scenario) ownedAndDesired(lastLine vs.M) (owned, desired []string) {
 	calls := lastLine["calls"].([]vs.LogEntry)
 	for _, e := range calls {
 		if e.Verb == "hook" && e.Hook != "customize" {
+			lastHook = e.Hook
 			if m, ok := e.HookResp.(map[string]interface{}); ok {
 				desired = nil
+				desiredObjs = nil
 				if ch, ok := m["children"].([]interface{}); ok {
 					for _, c := range ch {
 						if cm, ok := c.(map[string]interface{}); ok {
 							desired = append(desired, fmt.Sprint(cm["kind"])+"/"+objStr(cm, "metadata", "name"))
+							desiredObjs = append(desiredObjs, cm)
 						}
 					}
 				}
@@ -322,9 +334,10 @@ func runConverge(r *vs.Rand, i int, seed uint64, out *vs.Out) {
 		rounds = append(rounds, ri)
 		last = line
 	}
-	owned, desired := sc.ownedAndDesired(last)
+	owned, desired, ownedObjs, desiredObjs, lastHook := sc.ownedAndDesiredObjs(last)
 	out.Line(vs.M{"kind": "rounds", "mode": "converge", "case": i, "seed": seed, "cfg": cfg, "rounds": rounds,
 		"foreign": foreign, "parentDeleting": deleting, "owned": owned, "desired": desired,
+		"ownedObjs": ownedObjs, "desiredObjs": desiredObjs, "lastHook": lastHook, "ssa": cfg.SSA,
 		"hookMode": objStr(p, "spec", "hookMode"), "replicas": objInt(p, "spec", "replicas")})
 }
 
